@@ -29,6 +29,10 @@ fn target_root() -> PathBuf {
 }
 
 fn find_protoc() -> Option<PathBuf> {
+    if std::env::var("VERIF_NO_PROTOC").is_ok() {
+        // exercise the path taken on a machine without protoc
+        return None;
+    }
     for d in std::env::var("PATH").unwrap_or_default().split(':').chain(["/usr/bin", "/usr/local/bin"]) {
         let p = PathBuf::from(d).join("protoc");
         if p.is_file() {
@@ -586,8 +590,17 @@ pub fn validity_cases() -> Vec<pool::Case> {
     out
 }
 
-/// the cause of an invalid file as a class: protoc's message without position, names and numbers
+/// the cause of an invalid file as a class: the harness parser's cause code where it rejects the file (stable, does
+/// not depend on the installed protoc), else protoc's message without position, names and numbers
 fn validity_family(msg: &str) -> String {
+    if let Some(p) = msg.find('[') {
+        if let Some(q) = msg[p..].find(']') {
+            let code = &msg[p + 1..p + q];
+            if !code.is_empty() && code.chars().all(|c| c.is_ascii_lowercase() || c == '-') {
+                return code.to_string();
+            }
+        }
+    }
     let m = msg.strip_prefix("protoc: ").unwrap_or(msg);
     // file.proto:line:col: message
     let m = match m.find(".proto:") {
@@ -649,7 +662,8 @@ pub fn validity_space(schemas: &Schemas, agg: &mut Agg) {
                         match (mine, theirs) {
                             (Err(e), Some(Ok(()))) => machinery_error(&format!("the harness parser rejects a .proto that protoc accepts ({}): {e}\n{text}", c.label)),
                             (Err(e), None) => verdict = Some(("proto-invalid".to_string(), e)),
-                            (_, Some(Err(pe))) => verdict = Some(("proto-invalid".to_string(), format!("protoc: {}", truncate(&pe, 200)))),
+                            (Err(e), Some(Err(pe))) => verdict = Some(("proto-invalid".to_string(), format!("{e}; protoc: {}", truncate(&pe, 160)))),
+                            (Ok(_), Some(Err(pe))) => verdict = Some(("proto-invalid".to_string(), format!("protoc: {}", truncate(&pe, 200)))),
                             (Ok(_), _) => {}
                         }
                     }
